@@ -69,8 +69,11 @@ bool SignalEventImpl::initialize(const std::initializer_list<int> &sigset, Mode 
 bool SignalEventImpl::enable()
 {
     if (is_inited_) {
-        for (int signo : sigset_) {
-            if (!wp_loop_->subscribeSignal(signo, this)) {
+        for (auto iter = sigset_.begin(); iter != sigset_.end(); ++iter) {
+            if (!wp_loop_->subscribeSignal(*iter, this)) {
+                //! 将前面已订阅成功的信号退订，否则 disable() 时不会再去退订它们
+                while (iter != sigset_.begin())
+                    wp_loop_->unsubscribeSignal(*(--iter), this);
                 return false;
             }
         }
